@@ -335,6 +335,52 @@ def run(ctx):
             ctx.check("C20.3", not raw, sd0, g, f"set_data memory guard: `{src_of(g)}`"[:160], "bits per channel against the room left",
                       "the guard measures the raw argument: for per-channel rows `len(data)` is the number of channels and for a string the number of characters - 2-bit rows for three channels "
                       "at the last two addresses lose a channel, six bits at the last three addresses are written past the end of the memory")
+        # the room itself: addresses start_addrs .. MAX_MEMORY_LEN hold MAX_MEMORY_LEN - start_addrs + 1 bits.  One less and a request
+        # that ends exactly on the last cell is cut (and a one-bit write at the last address becomes a zero-length block)
+        def lin(e, depth=0):
+            """(coefficient of MAX_MEMORY_LEN, coefficient of start_addrs, constant) of an affine expression, or None"""
+            if depth > 6:
+                return None
+            if isinstance(e, ast.NamedExpr):
+                return lin(e.value, depth + 1)
+            if isinstance(e, ast.Constant) and isinstance(e.value, int) and not isinstance(e.value, bool):
+                return (0, 0, e.value)
+            if isinstance(e, ast.Attribute) and e.attr == "MAX_MEMORY_LEN":
+                return (1, 0, 0)
+            if isinstance(e, ast.Name):
+                if e.id == "start_addrs":
+                    return (0, 1, 0)
+                if len(ldefs.get(e.id, [])) == 1:
+                    return lin(ldefs[e.id][0], depth + 1)
+                return None
+            if isinstance(e, ast.BinOp) and isinstance(e.op, (ast.Add, ast.Sub)):
+                l, r = lin(e.left, depth + 1), lin(e.right, depth + 1)
+                if l is None or r is None:
+                    return None
+                sg = 1 if isinstance(e.op, ast.Add) else -1
+                return tuple(a_ + sg * b_ for a_, b_ in zip(l, r))
+            if isinstance(e, ast.UnaryOp) and isinstance(e.op, ast.USub):
+                v = lin(e.operand, depth + 1)
+                return None if v is None else tuple(-a_ for a_ in v)
+            return None
+        for n in ast.walk(sd0.node):
+            if isinstance(n, ast.NamedExpr) and isinstance(n.target, ast.Name):
+                ldefs.setdefault(n.target.id, []).append(n.value)
+        for g in guards:
+            if len(g.ops) != 1 or not isinstance(g.ops[0], (ast.Gt, ast.Lt, ast.GtE, ast.LtE)):
+                continue
+            room_side = g.comparators[0] if "MAX_MEMORY_LEN" in expand(g.comparators[0]) else g.left
+            if any(isinstance(x, ast.Name) and x.id == "start_addrs" for x in ast.walk(g)) and not any(isinstance(x, ast.Name) and x.id == "data" for x in ast.walk(g)) \
+                    and "data" not in expand(g.left) + expand(g.comparators[0]):
+                continue          # the range test of the start address itself
+            v = lin(room_side)
+            if v is None or v[0] != 1 or v[1] != -1:
+                continue
+            strict = isinstance(g.ops[0], (ast.Gt, ast.Lt))
+            want_c = 1 if strict else 2           # n > room  <=>  n >= room + 1
+            ctx.check("C20.3", v[2] == want_c, sd0, g, f"set_data memory guard: room left = MAX_MEMORY_LEN - start_addrs + 1", "exactly the cells start_addrs .. MAX_MEMORY_LEN",
+                      f"the data are compared with MAX_MEMORY_LEN - start_addrs {v[2]:+d}: " + ("one bit too few - a request that ends exactly on the last cell is cut with a warning, and a one-bit write at the last "
+                      "address becomes a zero-length block" if v[2] < want_c else "too many - data are written past the end of the memory"))
     # ---------------- C20.4 read-back reassembly
     gd = ci.methods.get("get_data")
     if gd is None:
